@@ -40,16 +40,22 @@ def known_bad_rule_names():
 
 
 def get_plans(ddl, queries, configs):
-    out, rc, err = rl('plans', {'setup': ddl, 'queries': queries, 'configs': configs}, timeout=600)
+    """Bind + optimize every query under every configuration (real binder / optimizer).  Large corpora are planned in
+    batches so that one driver call stays well inside its time limit whatever the machine load."""
     cat = None
     plans = []
-    for o in out:
-        if 'catalog' in o:
-            cat = o['catalog']
-        elif 'sql' in o:
-            plans.append(o)
-    if cat is None:
-        raise Inconclusive('driver `plans` failed: ' + err[-400:])
+    step = 120
+    for i0 in range(0, max(len(queries), 1), step):
+        out, rc, err = rl('plans', {'setup': ddl, 'queries': queries[i0:i0 + step], 'configs': configs}, timeout=900)
+        got_cat = False
+        for o in out:
+            if 'catalog' in o:
+                cat = o['catalog']
+                got_cat = True
+            elif 'sql' in o:
+                plans.append(o)
+        if not got_cat:
+            raise Inconclusive('driver `plans` failed: ' + err[-400:])
     return cat, plans
 
 
